@@ -511,6 +511,13 @@ def check(src, rep, tier):
     rep.guard('C08.R2', r2_same_line_notion, src, M)
     rep.guard('C08.R1', r1_no_injection, src, M)
     rep.guard('C08.R3', r3_check_before_commit, src, M)
-    rep.need('C08.R4', 7)
-    rep.guard('C08.R4', r4_settings_by_position, src)
+    rep.need('C08.R4', 5)
+    n_v, n_e = len(rep.violations), len(rep.errors)
     rep.guard('C08.R4', r4b_handover, src)
+    handover_holds = len(rep.violations) == n_v and len(rep.errors) == n_e
+    n_r4 = sum(1 for i_ in rep.instances if i_.get('rule') == 'C08.R4')
+    from . import common
+    common.SoftAll(rep, lambda: handover_holds, 'the interpreted constructor (C08.R4), which hands the setting on under every calling convention').guard(
+        'C08.R4', r4_settings_by_position, src)
+    if rep.min_instances.get('C08.R4') == 0 or not handover_holds:
+        rep.min_instances['C08.R4'] = min(n_r4, 5)
